@@ -72,26 +72,38 @@ def cooc_params(c, timed=False, multi=False):
     if timed and p["window_radii"] == 0:
         p["window_radii"] = 1
     p["normalize_windows"] = r.random() < 0.5
-    # (n_iter, epsilon) walk: EM on heavily thresholded matrices (rows that lose every cell) first
-    p["n_iter"], p["epsilon"] = grid(c, [(1, 0.5), (0, 0), (2, 0.2), (1, 0), (0, 0.2), (2, 0.5)])[0]
+    # the two settings that decide which of the three hand-written pipelines (fit_transform / fit / transform) can
+    # disagree -- what happens to tokens outside the vocabulary (deleted | masked | masked and nullified) and how the
+    # vocabulary is pruned -- are ENUMERATED on the seed: any COOC_GRID = 12 consecutive seeds cover every
+    # (mask setting, pruning) pair for the driver at hand, and walk through the six (n_iter, epsilon) settings
+    # (EM on heavily thresholded matrices, rows that lose every cell, first); COOC_GRID * 6 consecutive seeds cover
+    # the full product.
+    mask, prune = grid(c, COOC_MASKS, COOC_PRUNES)
+    p["n_iter"], p["epsilon"] = COOC_EM[(c.seed % COOC_GRID + c.seed // COOC_GRID) % len(COOC_EM)]
     p["n_threads"] = r.choice([1, 1, 2, 3])
     if r.random() < 0.3:
         p["coo_initial_memory"] = r.choice(["1k", "2k", "20k"])
-    if r.random() < 0.3:
-        p["min_occurrences"] = 2
-    if r.random() < 0.3:
-        p["mask_string"] = "MASK"
-        p["nullify_mask"] = r.random() < 0.5
-    if r.random() < 0.2:
-        p["max_unique_tokens"] = r.randint(2, 4)
+    k_unique = r.randint(2, 4)
+    p.update(mask)
+    p.update({k: (k_unique if v == "k" else v) for k, v in prune.items()})
     return p
 
 
+COOC_MASKS = [{"mask_string": "MASK", "nullify_mask": True}, {}, {"mask_string": "MASK"}]
+COOC_PRUNES = [{"min_occurrences": 2}, {}, {"max_unique_tokens": "k"}, {"min_document_occurrences": 2}]
+COOC_EM = [(1, 0.5), (0, 0), (2, 0.2), (1, 0), (0, 0.2), (2, 0.5)]
+COOC_GRID = len(COOC_MASKS) * len(COOC_PRUNES)
+
+
 def _ensure_vocab(docs, p):
-    """Make sure pruning leaves a non-empty vocabulary: duplicate the corpus when min_occurrences is set."""
-    if p.get("min_occurrences"):
+    """Make sure pruning leaves a non-empty vocabulary: duplicate the corpus when a minimum (document) occurrence
+    count is set."""
+    if p.get("min_occurrences") or p.get("min_document_occurrences"):
         docs = docs + docs
     return docs
+
+
+NGRAM_GRID = 36
 
 
 def build(name, seed):
@@ -173,12 +185,15 @@ def build(name, seed):
         c.exact = False
         c.rtol = 1e-5
     elif name == "NgramVectorizer":
-        size, beh = grid(c, [3, 1, 2], ["subgrams", "exact"])
+        # (ngram_size, behaviour) first -- 6 consecutive seeds cover them --, then mask setting and pruning: NGRAM_GRID = 36
+        # consecutive seeds cover the whole product (the fit / transform loops are duplicated code, like the
+        # preprocessing call in front of them)
+        size, beh, mask, prune = grid(c, [3, 1, 2], ["subgrams", "exact"],
+                                      [{}, {"mask_string": "MASK"}, {"mask_string": "MASK", "nullify_mask": True}],
+                                      [{}, {"min_occurrences": 2}])
         c.params = {"ngram_size": size, "ngram_behaviour": beh}
-        if r.random() < 0.3:
-            c.params["min_occurrences"] = 2
-        if r.random() < 0.3:
-            c.params["mask_string"] = "MASK"
+        c.params.update(mask)
+        c.params.update(prune)
         if r.random() < 0.2:
             c.params["max_document_frequency"] = 0.9
         # documents shorter than, equal to and longer than ngram_size
